@@ -59,6 +59,7 @@ Inductive ev :=
 | VState (v : nat)          (* OnConnectionStateChange entered with state v *)
 | VBH                       (* BindingRequestHandler entered (on the loop goroutine) *)
 | VTask                     (* a harness task body entered (on the loop goroutine) *)
+| VTcpDial                  (* a gatherer entered a TCP connect that never completes *)
 | VOther.
 
 Record obs := mkObs {
@@ -86,6 +87,10 @@ Definition own_goroutine (c : closer) : bool :=
 Definition in_callback (c : closer) : bool := String.eqb (cclass c) "cb".
 Definition graceful_in_callback (c : closer) : bool := String.eqb (cclass c) "cbg".
 Definition in_binding_handler (c : closer) : bool := mem_str (cclass c) ["bh"; "bhg"].
+
+(* a GracefulClose waits for the notifier goroutines: it cannot return while one of them is wedged
+   inside a callback that itself called GracefulClose *)
+Definition graceful_closer (c : closer) : bool := mem_str (cclass c) ["apig"; "cbggo"; "bhggo"; "cbg"; "bhg"].
 
 Definition returned (c : closer) : bool := negb (Nat.eqb (cret c) 0).
 
@@ -233,14 +238,22 @@ Definition teardown_before (stop : ev -> bool) (l : list ev) : bool :=
 
 Definition has (p : ev -> bool) (l : list ev) : bool := existsb p l.
 
+(* a gatherer is inside net.DialTCP (no context, no timeout of its own): nothing the agent does can
+   end it; onClose waits for the gather goroutine, so Close lasts as long as the connect *)
+Definition is_tcp_dial (e : ev) : bool := match e with VTcpDial => true | _ => false end.
+Definition blocked_dial (o : obs) : bool := has is_tcp_dial (o_events o).
+
 (* ---- the monitor ----------------------------------------------------------------------------- *)
 Definition guard (g b : bool) : bool := implb g b.
 
 Definition C08_checks (o : obs) : checks :=
   let wl := wedged_loop o in
   let wn := wedged_notifier o in
-  let ok := o_returned o && negb wl in       (* the case is judgeable beyond "did Close return" *)
-  [ ("C08.close_returns", wl || all_returned own_goroutine o);
+  let bd := blocked_dial o in
+  let ok := o_returned o && negb wl && negb bd in   (* the case is judgeable beyond "did Close return" *)
+  [ ("C08.close_returns",
+       wl || bd || all_returned (fun c => own_goroutine c && negb (wn && graceful_closer c)) o);
+    ("C08.close_returns:during_tcp_connect", wl || negb bd || all_returned own_goroutine o);
     ("C08.close_returns:in_callback", wl || all_returned in_callback o);
     ("C08.close_returns:graceful_sync_in_callback", wl || all_returned graceful_in_callback o);
     ("C08.close_returns:in_binding_request_handler", all_returned in_binding_handler o);
@@ -250,7 +263,7 @@ Definition C08_checks (o : obs) : checks :=
     ("C08.blocked_calls_error:Dial", guard ok (blocked_error "Dial" true o));
     ("C08.blocked_calls_error:Accept", guard ok (blocked_error "Accept" true o));
     ("C08.blocked_calls_error:AwaitConnect", guard ok (blocked_error "AwaitConnect" true o));
-    ("C08.later_calls_return", guard ok (later_return o));
+    ("C08.later_calls_return", guard (ok && negb wn) (later_return o));   (* a later GracefulClose waits for the wedged notifier *)
     ("C08.later_calls_closed_error", guard ok (later_closed_error o));
     ("C08.later_calls_closed_error:AwaitConnect", guard ok (later_special "AwaitConnect" o));
     ("C08.later_calls_closed_error:GetSelectedCandidatePair", guard ok (later_special "GetSelectedCandidatePair" o));
